@@ -675,6 +675,10 @@ func (x *CommonLex) Next() rune {
 	if c == utf8.RuneError && size == 1 {
 		return xutils.ERR
 	}
+	if c == 0 {
+		// A NUL character is not the end of the expression (EOF is 0 too)
+		return xutils.ERR
+	}
 	return c
 }
 
